@@ -23,8 +23,7 @@ impl<I: CloseSyscall> CloseSyscall for NioCloseSyscall<I> {
     extern "C" fn close(&self, fn_ptr: Option<&extern "C" fn(c_int) -> c_int>, fd: c_int) -> c_int {
         _ = EventLoops::del_event(fd);
         // the descriptor number may be reused by a new socket: forget its time limits
-        _ = crate::syscall::unix::SEND_TIME_LIMIT.remove(&fd);
-        _ = crate::syscall::unix::RECV_TIME_LIMIT.remove(&fd);
+        crate::syscall::unix::forget_time_limits(fd);
         self.inner.close(fn_ptr, fd)
     }
 }
